@@ -526,14 +526,16 @@ type ExclCase struct {
 }
 
 // runExclDSL applies the real schema.ExcludeRealm / ExcludeSchema to a freshly built realm.
-func runExclDSL(cs ExclCase) (exclResult, error) {
-	r0, err := build(cs.Realm, "plain")
-	if err != nil {
-		return exclResult{}, err
-	}
-	before, dup := flatten(r0)
-	if dup {
-		return exclResult{}, fmt.Errorf("generator produced duplicate names")
+func runExclDSL(cs ExclCase, before []Res) (exclResult, error) {
+	if before == nil {
+		r0, err := build(cs.Realm, "plain")
+		if err != nil {
+			return exclResult{}, err
+		}
+		var dup bool
+		if before, dup = flatten(r0); dup {
+			return exclResult{}, fmt.Errorf("generator produced duplicate names")
+		}
 	}
 	r1, err := build(cs.Realm, "plain")
 	if err != nil {
